@@ -50,39 +50,42 @@ func ruleCALLBACKARG(p *Program, rep *Report) {
 	if !found {
 		rep.Bad("CALLBACK-ARG", "Writer.flushBuffer|Flushed-arg", p.Pos(fb.Pos()), "flushBuffer no longer invokes the Flushed callback")
 	}
-	// ACKed
-	cl := p.Method("pq", "acker", "cleanup")
+	// ACKed: wherever the callback is invoked (cleanup itself or its caller), its first argument is computed from
+	// the ACK's own event count (a parameter of the ACK path) and its second from the free plan (ackState.free)
 	cbA := p.FieldVar("pq", "acker", "ackCB")
 	free := p.FieldVar("pq", "ackState", "free")
-	rep.Analysed(funcName(cl))
 	found = false
-	for _, b := range cl.Blocks {
-		for _, ins := range b.Instrs {
-			c, ok := ins.(*ssa.Call)
-			if !ok || c.Common().IsInvoke() || c.Common().StaticCallee() != nil || loadedField(c.Common().Value) != cbA {
-				continue
-			}
-			found = true
-			key := "acker.cleanup|ACKed-args"
-			a0, a1 := stripConv(c.Common().Args[0]), c.Common().Args[1]
-			_, isParam := a0.(*ssa.Parameter)
-			lenOK := derivesFrom(a1, func(v ssa.Value) bool {
-				call, ok := v.(*ssa.Call)
-				if !ok {
-					return false
+	for _, fn := range p.SrcFuncs() {
+		if fnPkgPath(fn) != modPath+"/pq" {
+			continue
+		}
+		for _, b := range fn.Blocks {
+			for _, ins := range b.Instrs {
+				c, ok := ins.(*ssa.Call)
+				if !ok || c.Common().IsInvoke() || c.Common().StaticCallee() != nil || loadedField(c.Common().Value) != cbA || len(c.Common().Args) < 2 {
+					continue
 				}
-				bi, ok := call.Common().Value.(*ssa.Builtin)
-				return ok && bi.Name() == "len" && loadedField(call.Common().Args[0]) == free
-			}, 0, map[ssa.Value]bool{})
-			if isParam && lenOK {
-				rep.OK("CALLBACK-ARG", key, p.InstrPos(c), "ACKed(n, len(plan))")
-			} else {
-				rep.Bad("CALLBACK-ARG", key, p.InstrPos(c), "the ACKed callback is not called with the ACK's own event count and the number of pages of its free plan")
+				found = true
+				rep.Analysed(funcName(fn))
+				key := "acker|ACKed-args"
+				_, params := sliceOf(p, c.Common().Args[0])
+				fromN := false
+				for par := range params {
+					if b, ok := par.Type().Underlying().(*types.Basic); ok && b.Info()&types.IsInteger != 0 && par.Parent().Signature.Recv() != nil && isNamed(par.Parent().Signature.Recv().Type(), modPath+"/pq", "acker") {
+						fromN = true
+					}
+				}
+				f1, _ := sliceOf(p, c.Common().Args[1])
+				if fromN && f1[free] {
+					rep.OK("CALLBACK-ARG", key, p.InstrPos(c), "ACKed(n, len(plan))")
+				} else {
+					rep.Bad("CALLBACK-ARG", key, p.InstrPos(c), "the ACKed callback is not called with the ACK's own event count and the number of pages of its free plan")
+				}
 			}
 		}
 	}
 	if !found {
-		rep.Bad("CALLBACK-ARG", "acker.cleanup|ACKed-args", p.Pos(cl.Pos()), "cleanup no longer invokes the ACKed callback")
+		rep.Bad("CALLBACK-ARG", "acker|ACKed-args", "", "no function of package pq invokes the ACKed callback any more")
 	}
 }
 
